@@ -438,10 +438,15 @@ theorem other_modes_keep_pending (v : Vi) (m : InputMode) (hm : m ≠ .navigatio
 
 example : (exVi.setInputMode .replace).opPending = true := by decide
 
-/-- The Escape handler of vi.py (`_back_to_navigation`: optional cursor-left, `input_mode =
-    NAVIGATION`, `exit_selection()`) as a handler program: it always ends in Vi navigation mode
-    (the filter is on) with no pending operator or digraph and no selection. -/
-theorem back_to_navigation_post (a : App) (d : Int) (hvi : a.viMode = true) :
+/-- PARTIAL (Escape).  Full statement of the property: "outside a quoted insert, EVERY Escape key
+    press brings Vi to navigation mode with no pending operator or digraph".  That is false of the
+    current code when the Escape is consumed as the `<any>` argument of a pending multi-key binding
+    (known finding, witness `C-o f Esc`: ends in INSERT mode; key dispatch is not modelled here, the
+    search reports it under its own signature).  What holds, and is proved: whenever the Escape
+    binding of vi.py is the handler that runs (`_back_to_navigation`: optional cursor-left,
+    `input_mode = NAVIGATION`, `exit_selection()`), the editor ends in Vi navigation mode (the
+    filter is on) with no pending operator or digraph and no selection. -/
+theorem back_to_navigation_post_partial (a : App) (d : Int) (hvi : a.viMode = true) :
     let r := hrun a [.buf (.moveCursor d), .setMode .navigation, .buf .exitSelection]
     r.2 = .ok ∧ r.1.vi.mode = .navigation ∧ r.1.vi.opPending = false ∧ r.1.vi.opArg = none ∧
     r.1.vi.waitingDigraph = false ∧ r.1.vi.digraph1 = none ∧ r.1.buf.sel = none ∧
@@ -450,7 +455,7 @@ theorem back_to_navigation_post (a : App) (d : Int) (hvi : a.viMode = true) :
 
 example : (hrun { exApp with vi := exVi, buf := exBuf } [.buf (.moveCursor (-1)), .setMode .navigation,
                                                       .buf .exitSelection]).1.vi.opPending = false :=
-  (back_to_navigation_post { exApp with vi := exVi, buf := exBuf } (-1) rfl).2.2.1
+  (back_to_navigation_post_partial { exApp with vi := exVi, buf := exBuf } (-1) rfl).2.2.1
 
 /-! ### (e) accept -/
 
